@@ -175,9 +175,19 @@ namespace {
       bool noisy = false;
       std::mt19937_64 g { 7 };
 
+      std::vector<void*> holes;
+      ~Program() { for (auto p : holes) std::free(p); }
       void noise()
       {
          if (not noisy) return;
+         // scramble the allocator: blocks of the sizes nodes have, some released again, so that later nodes do not
+         // come out in increasing address order
+         for (int k = 0; k < 30; ++k) holes.push_back(std::malloc(16 + (g() % 40) * 8));
+         for (int k = 0; k < 12 and not holes.empty(); ++k) {
+            auto i = g() % holes.size();
+            std::free(holes[i]);
+            holes.erase(holes.begin() + static_cast<long>(i));
+         }
          for (int k = 0; k < 40; ++k) {
             auto s = "noise" + std::to_string(g() % 100000);
             auto& id = lex.get_identifier(vh::u8(s));
@@ -201,6 +211,50 @@ namespace {
          auto kind = t.at(0).as_str();
          if (kind == "expr") return *located(lex.make_expr_stmt(*lex.make_literal(lex.int_type(), u8"1")));
          if (kind == "decl") return *located(region.declare_var(name(), lex.int_type()));
+         if (kind == "class") {
+            // a class definition with a base, members (one with specifiers, one bit-field) as a declaration statement
+            auto c = lex.make_class(region);
+            c->declare_base(lex.int_type());
+            auto f = c->declare_field(name(), lex.get_pointer(lex.char_type()));
+            f->specifiers(static_cast<const ipr::Lexicon&>(lex).mutable_specifier() | static_cast<const ipr::Lexicon&>(lex).public_specifier());
+            auto bf = c->declare_bitfield(name(), lex.int_type());
+            bf->length = lex.make_literal(lex.int_type(), u8"3");
+            auto d = region.declare_type(name(), lex.class_type());
+            c->id = &d->name();
+            d->init = c;
+            return *located(d);
+         }
+         if (kind == "enum") {
+            auto e = lex.make_enum(region, ipr::Enum::Kind::Scoped);
+            e->add_member(name());
+            e->add_member(name())->init = lex.make_literal(lex.int_type(), u8"7");
+            auto d = region.declare_type(name(), lex.enum_type());
+            e->id = &d->name();
+            d->init = e;
+            return *located(d);
+         }
+         if (kind == "fun") {
+            // a function definition: mapping with a parameter and a body block
+            impl::Warehouse<ipr::Type> wh;
+            wh.push_back(lex.int_type());
+            auto m = lex.make_mapping(region, ipr::Mapping_level{1});
+            m->param(name(), lex.int_type());
+            auto body = lex.make_block(m->inputs.parms);
+            body->add_stmt(*lex.make_return(*lex.make_literal(lex.int_type(), u8"0")));
+            m->body = body;
+            auto fd = region.declare_fun(name(), lex.get_function(lex.get_product(wh), lex.int_type()));
+            m->typing = &fd->type();
+            static_cast<std::variant<impl::Parameter_list*, impl::Mapping*>&>(fd->data) = m;
+            fd->specifiers(static_cast<const ipr::Lexicon&>(lex).inline_specifier());
+            return *located(fd);
+         }
+         if (kind == "arr") {
+            auto& t = lex.get_array(lex.get_qualified(static_cast<const ipr::Lexicon&>(lex).const_qualifier(), lex.get_pointer(lex.int_type())),
+                                    *lex.make_literal(lex.int_type(), u8"3"));
+            auto v = region.declare_var(name(), t);
+            v->init = lex.make_literal(lex.int_type(), u8"x\ty");
+            return *located(v);
+         }
          if (kind == "break") return *located(lex.make_break());
          if (kind == "return") return *located(lex.make_return(*lex.make_literal(lex.int_type(), u8"0")));
          if (kind == "block" or kind == "try") {
@@ -330,7 +384,7 @@ namespace {
       std::ios::sync_with_stdio(false);
       std::string line;
       LastBeh lastbeh;
-      long trees = 0;
+      long trees = 0, refused = 0;
       std::string sample;
       while (std::getline(std::cin, line)) {
          std::string text = line.rfind("<<\"BEH\"", 0) == 0 ? tlc_unescape(line) : line;
@@ -381,7 +435,7 @@ namespace {
             // every statement implementation keeps its location in a public member of impl::Stmt<>
             bool set = false;
 #define TRY(K) if (not set) if (auto p = dynamic_cast<impl::K*>(st)) { p->src_locus = loc; set = true; }
-            TRY(Expr_stmt) TRY(Var) TRY(Break) TRY(Return) TRY(Block) TRY(If) TRY(While) TRY(Do) TRY(Switch) TRY(For) TRY(For_in) TRY(Labeled_stmt)
+            TRY(Expr_stmt) TRY(Var) TRY(Typedecl) TRY(Fundecl) TRY(Break) TRY(Return) TRY(Block) TRY(If) TRY(While) TRY(Do) TRY(Switch) TRY(For) TRY(For_in) TRY(Labeled_stmt)
 #undef TRY
             if (set) locs.push_back({file, ln, col});
          }
@@ -393,6 +447,8 @@ namespace {
             if (l[2] != 0) p += ":" + std::to_string(l[2]);
             pfx.push_back(p + " ");
          }
+         // a refused print stops midway: the prefixes after that point were never due, and nothing is claimed about them
+         if (on.find("<logic_error>") != std::string::npos or off.find("<logic_error>") != std::string::npos) { ++refused; continue; }
          std::vector<long> split, reps;
          if (not find_split(on, off, pfx, 0, 0, 0, split, reps)) { split.assign(locs.size(), 0); reps.assign(locs.size(), 1); }
          auto ev = Value::object();
@@ -405,7 +461,7 @@ namespace {
       }
       auto s = Value::object();
       s.set("behaviours", trees).set("steps", trees * 8).set("failed", 0).set("fail_keys", Value::object()).set("classes", trees)
-         .set("sample", sample);
+         .set("sample", sample).set("located_refused", refused);
       std::cout << "SUMMARY " << vj::dump(s) << "\n";
       return 0;
    }
